@@ -649,22 +649,22 @@ NT = ("; non-trivial = some step removes lanelets that a remaining lanelet/inter
       "shared between removed and kept lanelets, or a sign/light that lanelets reference, or an intersection that spans "
       "removed and kept lanelets")
 FACETS = [
-    Facet("scenario-removals", check_scenario, strategy=lambda tier: history("scenario"), quick=600, thorough=24000,
+    Facet("scenario-removals", check_scenario, strategy=lambda tier: history("scenario"), quick=1800, thorough=24000,
           max_shrink_s=20,
           rule="1-6 Scenario.remove_lanelet(+-referenced elements) / remove_traffic_sign / remove_traffic_light / "
                "remove_intersection steps (single and list forms) on generated networks added to a Scenario" + NT),
-    Facet("network-removals", check_network, strategy=lambda tier: history("network"), quick=500, thorough=20000,
+    Facet("network-removals", check_network, strategy=lambda tier: history("network"), quick=1500, thorough=20000,
           max_shrink_s=20,
           rule="1-6 LaneletNetwork.remove_lanelet / remove_traffic_sign / remove_traffic_light / remove_intersection "
                "steps (present and absent ids)" + NT),
-    Facet("cutouts", check_network, strategy=lambda tier: history("cut", 1, 4), quick=600, thorough=24000,
+    Facet("cutouts", check_network, strategy=lambda tier: history("cut", 1, 4), quick=1800, thorough=24000,
           max_shrink_s=20,
           rule="1-4 steps of create_from_lanelet_network(shape | excluded types | both) interleaved with network-level "
                "removals; results adopted as the current network or discarded; original compared before/after" + NT),
-    Facet("lanelet-list", check_network, strategy=lambda tier: history("list", 1, 4), quick=300, thorough=12000,
+    Facet("lanelet-list", check_network, strategy=lambda tier: history("list", 1, 4), quick=900, thorough=12000,
           max_shrink_s=20,
           rule="1-4 steps of create_from_lanelet_list(subset) interleaved with network-level removals" + NT),
-    Facet("mixed", check_scenario, strategy=lambda tier: history("mixed"), quick=400, thorough=16000,
+    Facet("mixed", check_scenario, strategy=lambda tier: history("mixed"), quick=1200, thorough=16000,
           max_shrink_s=20,
           rule="1-6 steps mixing scenario-level removals, network-level removals on scenario.lanelet_network and "
                "cut-outs of the scenario's network" + NT),
